@@ -113,6 +113,30 @@ def make_scenarios(rng, tier):
             sc["_refill"] = True
             scs.append(sc)
             sid += 1
+    # a REJECTED incremental text (a complete rule redefining pa, then a rule that does not compile) before everything else: nothing
+    # of it is installed — not when it is rejected, and not by the next incremental update that succeeds
+    for (method, kw) in [("Execute", {}), ("ExecuteConcurrent", {}), ("ExecuteSelectedRules", {}), ("ExecuteNSortMConcurrent", {"n": 1, "m": 2})]:
+        for second in ("incr1", "incr", "full"):
+            sc = {"id": sid, "min": 1, "max": 2, "model": 1, "rules": rules_v(1), "steps": []}
+            r0 = sid * 1000
+            sc["steps"].append({"op": "incr", "rules": rules_v(7, names=("pa",)), "bad_tail": True, "_ver": None})
+            sc["steps"].append(req_step(r0 + 1, method, NAMES, hold_at="pa", **kw))
+            sc["steps"].append(dict(upd(second, 2)))
+            sc["steps"].append({"op": "release", "id": r0 + 1})
+            for k in range(2):
+                sc["steps"].append(req_step(r0 + 10 + k, "Execute", [], hold_at="*", wait_ms=-200))
+            for k in range(2):
+                sc["steps"].append({"op": "release", "id": r0 + 10 + k})
+            sc["steps"].append({"op": "incr", "rules": rules_v(8, names=("pc",)), "bad_tail": True, "_ver": None})
+            sc["steps"].append(dict(upd("incr1", 4)))
+            for k in range(2):
+                sc["steps"].append(req_step(r0 + 20 + k, rng.choice(["Execute", "ExecuteMixModel"]), [], hold_at="*", wait_ms=-200))
+            for k in range(2):
+                sc["steps"].append({"op": "release", "id": r0 + 20 + k})
+            sc["_first_kind"] = "incr1"
+            sc["_refill"] = True
+            scs.append(sc)
+            sid += 1
     # executions that start while ANOTHER management call is holding the pool's locks: every instance has run the old version
     # once, an update to version 2 has returned, then a long removal of names that do not exist runs concurrently with max
     # executions per round — each of them started after the update returned and must run version 2
@@ -252,7 +276,7 @@ def main(run):
     if not mm:
         cov["discharged"] += 1
     cov.update({"evaluations": len(scs), "distinct_nontrivial": landed,
-                "rule": "scenarios = 14 entry-point shapes (the multi-stage N-M and DAG models, their selected variants, the single-stage models, one SpecifiedEM wrapper) x update kind (full, incremental, one-rule incremental, removal of the last / first / middle / two rules) x where the update comes from (an injected function called from inside the first-stage rule; the script while that rule is held at a gate) on a (1,2) pool (thorough: also (2,3)); then max simultaneous executions must run the new version on every instance, a second update, and another round; "
+                "rule": "scenarios = 14 entry-point shapes (the multi-stage N-M and DAG models, their selected variants, the single-stage models, one SpecifiedEM wrapper) x update kind (full, incremental, one-rule incremental, removal of the last / first / middle / two rules) x where the update comes from (an injected function called from inside the first-stage rule; the script while that rule is held at a gate) on a (1,2) pool (thorough: also (2,3)); then max simultaneous executions must run the new version on every instance, a second update, and another round; plus 12 scenarios that begin with a REJECTED incremental text whose first rule is complete (a redefinition of pa) and whose second does not compile, and have another one later: no successful update may install anything of them; "
                         "every rule returns version*10^6 + request id; checked inside Coq per execution: the returned (rule, body tag) entries equal Engine/Spec.v's result map of the entry point on the container of ONE admissible version of Pool/Model.v's management history (Pool/Compose.v check_exec_set); one version tag only, an installed one, not older than any update that returned before it began, not newer than any update that began after it ended; removed rules never run in executions that began after the removal returned; "
                         "distinct non-trivial = scenarios in which the update really landed between the begin and the end of the execution under test (by global sequence numbers)",
                 "executions_checked": sum(len(e) for _, e, _ in per_sc.values()), "traces_validated_against_impl": len(scs),
